@@ -57,6 +57,10 @@ var c06Config = []refmodel.ConfigEntry{
 	{Key: "refgroup.rl.b.include", Value: "refs/stash"},
 	{Key: "refgroup.tags.rel.include", Value: "refs/tags/barx"},
 	{Key: "refgroup.tags.rel.include", Value: "refs/heads/foo"}, // outside the parent: never a member
+	// built-in groups augmented by configuration: @branches/@tags then differ
+	// from the fixed options --branches/--tags, which stay plain prefix rules
+	{Key: "refgroup.branches.include", Value: "refs/xtags"},
+	{Key: "refgroup.stash.exclude", Value: "refs/stash"},
 	{Key: "refgroup.deep.include", Value: "refs/heads"},
 	{Key: "refgroup.deep.mid.includeregexp", Value: ".*/foo.*"},
 	{Key: "refgroup.deep.mid.leaf.include", Value: "refs/heads"},
@@ -74,7 +78,7 @@ func c06Options(tier string) []refOption {
 	patterns := []string{"refs/heads", "refs/heads/", "refs/hea", "refs/heads/foo", "", "refs/tags/bar", "refs/stash"}
 	regexps := []string{"refs/heads/.*", "refs/(heads|tags)/foo", "refs/heads/foo|refs/tags/bar", ".*foo", "^refs/heads/foo$",
 		"refs/heads/(fo|foo)", "refs/heads/a*(ab)?", "refs/tags/ba.+?"}
-	groups := []string{"tags", "mygroup", "mygroup.sub", "rl", "tags.rel", "stash", "deep.mid.leaf"}
+	groups := []string{"tags", "mygroup", "mygroup.sub", "rl", "tags.rel", "stash", "deep.mid.leaf", "branches"}
 	if tier != "thorough" {
 		patterns = patterns[:6]
 		regexps = regexps[:6]
